@@ -11,6 +11,10 @@ def prop(pid, rules, explanation, not_decided, technique, thorough_rules=(), ass
     }
 
 
+TOK_MODS = ['abbreviation.tokenizer', 'css_abbreviation.tokenizer']
+EXPAND_MODS = ['abbreviation', 'css_abbreviation', 'markup', 'stylesheet', 'scanner_utils']
+MATCH_MODS = ['html_matcher', 'css_matcher', 'scanner_utils']
+
 COMMON_ASSUMPTIONS = [
     'the package is plain first-order Python: no eval/exec/setattr/monkeypatching of emmet.* (census checked by rule CENSUS)',
     'user supplied callables (output.field, output.text) do not reach back into library state',
@@ -62,7 +66,8 @@ prop('C06',
      technique='structural dominance of the direct-hit exits; exhaustive key table check')
 
 prop('C07',
-     rules=['EXC-RAISE/expand', 'EXC-VISITOR', 'EXC-FMT', 'EXC-JOIN', 'EXC-NUMCONV', 'EXC-KEY', 'TAB-VOCAB', 'TAB-KEYS-PROFILE', 'CENSUS'],
+     rules=['EXC-RAISE/expand', 'EXC-VISITOR', 'EXC-FMT', 'EXC-JOIN', 'EXC-NUMCONV', 'EXC-KEY', 'TAB-VOCAB', 'TAB-KEYS-PROFILE', 'CENSUS',
+            'SCN-CORE', ('SCN-PROGRESS', EXPAND_MODS), ('SCN-OVER', EXPAND_MODS)],
      explanation='Explicit raises reachable from expand are one of the two parse errors (D, call graph). Implicit internal errors are decided by '
                  'family: missing visitor, %-format arity, join of non-strings, int()/float() of unproven text, constant-key subscripts on caller dicts.',
      not_decided=['implicit exception classes outside the listed families (AttributeError/TypeError from values the light type inference cannot see)'],
@@ -75,21 +80,21 @@ prop('C08',
      technique='ownership and effect analysis')
 
 prop('C09',
-     rules=['RNG-STRICT/html', 'TAB-VOID', 'EXC-THROWS', 'EXC-RAISE/matcher'],
+     rules=['RNG-STRICT/html', 'TAB-VOID', 'EXC-THROWS', 'EXC-RAISE/matcher', ('SCN-REST', ['html_matcher', 'scanner_utils']), ('SCN-OVER', ['html_matcher', 'scanner_utils']), ('SCN-PROGRESS', ['html_matcher', 'scanner_utils'])],
      explanation='match and balanced_outward use one strict containment predicate with the same bounds (N); the void list is the HTML void set and '
                  'void handling depends on xml mode as documented (D); scanner helpers are never asked to throw (D).',
      not_decided=['"innermost" and exactness of ranges for arbitrary documents (value-level)'],
      technique='comparison-shape analysis; table agreement')
 
 prop('C10',
-     rules=['RNG-STRICT/css', ('RNG-SENT', ['css_matcher']), 'RNG-PAREN'],
+     rules=['RNG-STRICT/css', ('RNG-SENT', ['css_matcher']), 'RNG-PAREN', ('SCN-REST', ['css_matcher']), ('SCN-OVER', ['css_matcher']), ('SCN-PROGRESS', ['css_matcher'])],
      explanation='Strict containment (N); arithmetic on a delimiter that may be the -1 sentinel is guarded wherever it can reach a result (N); '
                  'delimiters inside parentheses (N, known finding).',
      not_decided=['correctness of the selector/property state machine on arbitrary nesting'],
      technique='sentinel-flow analysis through callbacks; guard dominance')
 
 prop('C11',
-     rules=[('RNG-CLAMP', ['extract_abbreviation']), 'TAB-BRACEPAIRS'],
+     rules=[('RNG-CLAMP', ['extract_abbreviation']), 'TAB-BRACEPAIRS', ('SCN-OVER', ['extract_abbreviation']), ('SCN-PROGRESS', ['extract_abbreviation']), ('SCN-REST', ['extract_abbreviation'])],
      explanation='The caret position is clamped before it becomes a cursor (D); bracket pairing tables agree with the predicates that guard them (D).',
      not_decided=['the round-trip clause (backward heuristic, is_html) is value-level'],
      technique='clamp dominance; table agreement')
@@ -122,25 +127,27 @@ prop('C15',
      technique='reader/writer key agreement')
 
 prop('C16',
-     rules=['RNG-SENT', 'RNG-STRICT/html', 'RNG-STRICT/css', 'EXC-RAISE/matcher', 'EXC-THROWS'],
+     rules=['SCN-CORE', ('SCN-OVER', MATCH_MODS), ('SCN-PROGRESS', MATCH_MODS), ('SCN-REST', MATCH_MODS), 'RNG-SENT', 'RNG-STRICT/html', 'RNG-STRICT/css', 'EXC-RAISE/matcher', 'EXC-THROWS'],
      explanation='No explicit raise is reachable from the matchers (D); sentinel arithmetic guarded (N); strict containment (N).',
      not_decided=['relational clauses between match / balanced_outward / balanced_inward beyond predicate agreement'],
      technique='call-graph reachability; sentinel-flow analysis')
 
 prop('C17',
-     rules=[('RNG-SENT', ['action_utils']), 'RNG-STRICT/actions', 'EXC-RAISE/matcher'],
+     rules=[('RNG-SENT', ['action_utils']), 'RNG-STRICT/actions', 'EXC-RAISE/matcher', ('SCN-OVER', ['action_utils', 'css_matcher.parse', 'html_matcher.attributes']), ('SCN-PROGRESS', ['action_utils', 'css_matcher.parse', 'html_matcher.attributes'])],
      explanation='The after offset of a declaration without ; and the open-tag containment test (N).',
      not_decided=['next/previous item selection logic'],
      technique='sentinel-flow analysis')
 
 prop('C18',
-     rules=[('EXC-NUMCONV', ['abbreviation.tokenizer', 'css_abbreviation.tokenizer']), ('EXC-RAISE/expand', ['abbreviation.tokenizer', 'css_abbreviation.tokenizer', 'scanner'])],
+     rules=['SCN-CORE', ('SCN-SPAN', TOK_MODS), ('SCN-REST', TOK_MODS), ('SCN-OVER', TOK_MODS), ('SCN-PROGRESS', TOK_MODS),
+            ('EXC-NUMCONV', TOK_MODS), ('EXC-RAISE/expand', TOK_MODS + ['scanner'])],
      explanation='(partial, SCN-* cursor discipline rules being built) digit runs are converted only after a successful run with start set.',
      not_decided=['span tiling until SCN-* exists'],
      technique='cursor discipline dataflow')
 
 prop('C19',
-     rules=['EXC-RAISE/math', 'DEC-PRIO', 'TAB-MATHOPS', ('RNG-CLAMP', ['math_expression']), ('EXC-NUMCONV', ['math_expression'])],
+     rules=['EXC-RAISE/math', 'DEC-PRIO', 'TAB-MATHOPS', ('RNG-CLAMP', ['math_expression']), ('EXC-NUMCONV', ['math_expression']),
+            ('SCN-OVER', ['math_expression']), ('SCN-PROGRESS', ['math_expression']), ('SCN-REST', ['math_expression'])],
      explanation='Only MathExpressionException is raised explicitly (D); the precedence table satisfies the documented orderings and a prefix sign never '
                  'reduces a pending operator (N, finite table); every accepted operator has an evaluator with the right operand order (D); extract clamps its position (D).',
      not_decided=['arithmetic values'],
